@@ -1,5 +1,5 @@
 """The table behind MANIFEST.json (bin/mkmanifest)."""
-HOOK_COMMITS = ["6d53df4"]
+HOOK_COMMITS = ["6d53df4", "d824a97"]
 
 MC_NOTE = ("Trusted: TLC and its fingerprinting, the Go toolchain, the projection functions of the harness. The exhaustive results hold for the "
            "small constants of the cfg files named in the evidence; beyond them the evidence is the replayed/validated executions only.")
@@ -21,6 +21,31 @@ CHECKS = {
                 "panic class, every built-in verb x parameter shape x source, and random soups are then sent through real connections in child processes (tracking on/off), each "
                 "probe followed by a marker that must be dispatched in order. The enumeration is executed by the Go driver; TLC contributes the oracle only, which is why the level is exploration.",
         "note": "Trusted: the Go toolchain and the harness. Inputs beyond the bounded alphabet/length are only sampled.",
+    },
+    "C04": {
+        "engine": "Dispatch.tla", "level": "model_checking", "design_ref": "7 (C04)",
+        "technique": "TLA+ model of registrations and the three dispatch phases; TLC closure, every state-graph edge (register/remove/event incl. in-handler removal, registration, panic) replayed on a real client over a connection; -simulate for long histories",
+        "text": "Dispatch.tla fixes, for every history of Handle/HandleBG/internal handle/Remove/event over names differing in case, which registrations an event must invoke "
+                "(exact sets for the internal and foreground phases, must/may for the background set where the property leaves a race open). TLC enumerates all histories of the "
+                "bounded universe to closure and each edge is replayed on a real client: invocation multisets per event and recovery calls are compared.",
+        "note": MC_NOTE,
+    },
+    "C06": {
+        "engine": "Conn.tla", "level": "model_checking", "design_ref": "7 (C06), 3.3",
+        "technique": "TLA+ model of the connection goroutines/queues/mutex/wait group/context over generations; TLC exhaustive safety+liveness per cause family; defect-constant variants must fail; scenario families replayed on the real client",
+        "text": "Conn.tla is model-checked exhaustively (all interleavings of recv/send/runLoop/watcher/ping/closers for queue capacity 1, few lines) for: at most one DISCONNECTED and "
+                "exactly one REGISTER per generation, Connected() false when DISCONNECTED starts, refused Connect harmless. The same scenario space (cause x coincidence x backlog x "
+                "configuration bits) is run on the real client at the real queue capacity with event counters and Connected() samples taken inside handlers.",
+        "note": MC_NOTE + " Hook-level trace validation against Conn.tla is reported separately when built; until then the binding is scenario replay with observable outputs compared.",
+    },
+    "C07": {
+        "engine": "Conn.tla", "level": "model_checking", "design_ref": "7 (C07), 3.3",
+        "technique": "TLC liveness (Close returns, ended generation gets DISCONNECTED, no goroutine left) under weak fairness + ownership/freshness invariants; defect variants (D4-D7) must fail; backlog/cause/reconnect scenario families at real capacity with deadline + goroutine dump",
+        "text": "Liveness of teardown and freshness of reconnection are proved by TLC on Conn.tla for small constants (and shown to fail for each historical defect switched back on). "
+                "The scenario families (inbound/outbound backlog 0..700 lines in units of the real capacity, handler idle/running/blocked in a send, every cause, reconnect from the "
+                "DISCONNECTED handler or another goroutine, up to 12 cycles) are run on the real client: Close must return and DISCONNECTED arrive within the deadline, no internal "
+                "goroutine may remain, the next connection must register, stay up and have a reset tracker.",
+        "note": MC_NOTE + " Bounded time is judged against a 5 s deadline (25 s with flood control) plus a goroutine dump.",
     },
     "C12": {
         "engine": "Tracker.tla", "level": "model_checking", "design_ref": "7 (C12), 4.4",
